@@ -123,6 +123,12 @@ def main():
         print("MC_Hist Dev=%-22s -> %s (%d states)" % (dev, "holds" if ok else "violated", r["stats"]["states"]))
         if ok != expect:
             failures += 1
+    for kt, dev, expect in [("comb_secp", "none", True), ("comb_ed", "none", True), ("comb_secp", "NoShadowCheck", False)]:
+        r = mc.model_hist(kt, 2, 0, 1, wd, dev=dev, emit=False)
+        ok = r["stats"]["ok"]
+        print("MC_Hist[%s] Dev=%-14s -> %s (%d states)" % (kt, dev, "holds" if ok else "violated", r["stats"]["states"]))
+        if ok != expect:
+            failures += 1
     r = mc.model_gen("secp", 2, mc.ALL_CLASSES, 0, 1, wd, emit=False)
     print("MC_Gen                         -> %s (%d states)" % ("holds" if r["stats"]["ok"] else "violated", r["stats"]["states"]))
     failures += 0 if r["stats"]["ok"] else 1
